@@ -8,6 +8,11 @@ crossing k and every appended solution is recorded as element k of the result.
                  x_j <= z < x_{j+1}, the piecewise-linear interpolant at z equals the target; consecutive solutions strictly increase
                  (segments ascend and a crossing segment has x_j < x_{j+1} by the pre-condition x_i = x_{i+1} => y_i = y_{i+1})
   fallback path  no crossing: the single returned point is x[m] with |y_m - t| minimal (np.argmin contract)
+  completeness   lemma L17 (discrete intermediate-value theorem, by induction over the end index; base, step and the two one-segment
+                 detection facts are obligations of every run, stated on the *code's own* mask handed to np.nonzero):
+                 y_a <= t < y_n or y_a >= t > y_n with a <= n implies a detected crossing in [a, n).  Hence the fallback path is
+                 taken only when all samples lie (weakly) on one side of the target, where the closest sample point is the closest
+                 point of the whole interpolant; a sample exactly on the target makes the fallback point an exact solution
   shape          scalar target -> bare array
 threshold_at_metric: executed against the contract of invert_pl_function: the sample points are the sorted scores / k evenly spaced
 points from min to max / the user's array, y = metric(self, points), the target is passed on, ValueError exactly when fewer than two
@@ -134,6 +139,31 @@ def build_invert():
     zz, zz2 = Real("z!abs"), Real("z2!abs")
     lin = [h for h in hy2 if "*" not in h.sexpr() and "/" not in h.sexpr()]
     ob("solutions-strictly-increasing", zz < zz2, lin + [zz < X[j + 1], X[j2] <= zz2], "post", {"abstracted": True, "idx": [str(j), str(j2), str(j + 1), str(k), str(k2)]})
+    # ---- lemma L17 (discrete intermediate value theorem) for the code's own crossing mask, by induction over the end index n.
+    # cr(j) is the expression the real code hands to np.nonzero (row 0 = the one target), not a transcription of it.
+    nz = getattr(state["s_idx"], "nonzero_of", None)
+    ivt = None
+    if nz is None:
+        ob("L17/crossing-mask-found", BoolVal(False), [], "lemma", {"engine_error": "np.nonzero argument not found"})
+    else:
+        cmask, _si, rho_nz, _K = nz
+        cr = lambda q: toB(cmask.elem(0, q))
+        ob("L17/mask-has-one-entry-per-segment", toI(cmask.axes[1].size) == N - 1, [N >= 1], "lemma")
+        a_, n_, jw = Int("a!ivt"), Int("n!ivt"), Int("jw!ivt")
+        rng = [0 <= a_, a_ <= n_, n_ + 1 < N]
+        # completeness of the detection on one segment (quantifier-free: a model of the negation is a real refutation)
+        ob("L17/segment-rising-through-or-from-the-target-is-detected", cr(n_), [0 <= n_, n_ + 1 < N, Y[n_] <= t, Y[n_ + 1] > t], "lemma")
+        ob("L17/segment-falling-through-or-from-the-target-is-detected", cr(n_), [0 <= n_, n_ + 1 < N, Y[n_] >= t, Y[n_ + 1] < t], "lemma")
+        # Q_up(n) := y_a <= t < y_n  =>  exists j in [a, n): cr(j).   base n = a: antecedent false.   step with explicit witnesses.
+        ob("L17/up/base: no end point equal to the start", Not(And(Y[a_] <= t, Y[a_] > t)), [], "lemma")
+        wit = If(Y[n_] <= t, n_, jw)
+        ob("L17/up/step: a crossing in [a, n] whenever y_a <= t < y_{n+1}", And(a_ <= wit, wit < n_ + 1, cr(wit)),
+           rng + [Y[a_] <= t, Y[n_ + 1] > t, Implies(Y[n_] > t, And(a_ <= jw, jw < n_, cr(jw)))], "lemma")
+        ob("L17/down/base: no end point equal to the start", Not(And(Y[a_] >= t, Y[a_] < t)), [], "lemma")
+        wit = If(Y[n_] >= t, n_, jw)
+        ob("L17/down/step: a crossing in [a, n] whenever y_a >= t > y_{n+1}", And(a_ <= wit, wit < n_ + 1, cr(wit)),
+           rng + [Y[a_] >= t, Y[n_ + 1] < t, Implies(Y[n_] < t, And(a_ <= jw, jw < n_, cr(jw)))], "lemma")
+        ivt = (cr, rho_nz)
     for o in live:
         r, hy = o.value, o.path.pc
         okb = isinstance(r, T)
@@ -150,6 +180,16 @@ def build_invert():
                 mm = am[0].argmin_of[1]
                 dist = lambda q: If(Y[q] - t >= 0, Y[q] - t, t - Y[q])
                 ob("fallback/returns-the-sample-point-closest-to-the-target", And(0 <= mm, mm < N, v == X[mm], Implies(And(0 <= w, w < N), dist(mm) <= dist(w))), hy)
+                ob("fallback/a-sample-on-the-target-makes-the-returned-point-an-exact-solution", Y[mm] == t, hy + [0 <= w, w < N, Y[w] == t])
+                if ivt is not None:
+                    # conclusion of L17 (induction principle applied by the generator), instantiated at two generic samples p, q with
+                    # skolem witnesses: with no crossing detected the samples cannot lie strictly on both sides of the target
+                    cr, rho_nz = ivt
+                    p_, q_, j1, j2 = Int("p!side"), Int("q!side"), Int("j1!ivt"), Int("j2!ivt")
+                    l17 = [Implies(And(p_ <= q_, Y[p_] <= t, Y[q_] > t), And(p_ <= j1, j1 < q_, cr(j1))),
+                           Implies(And(q_ <= p_, Y[q_] >= t, Y[p_] < t), And(q_ <= j2, j2 < p_, cr(j2)))]
+                    ob("fallback/only-when-the-samples-stay-on-one-side-of-the-target", Not(And(Y[p_] < t, Y[q_] > t)),
+                       hy + l17 + [0 <= p_, p_ < N, 0 <= q_, q_ < N], "post", {"idx": [str(j1), str(j2), str(rho_nz(j1)), str(rho_nz(j2))]})
             else:
                 ob("fallback/argmin-witness", BoolVal(False), [], "post", {"engine_error": "argmin not found"})
         elif isinstance(r, T) and r.ndim == 1:
